@@ -15,7 +15,8 @@
 (*         obs |-> public getters after the call]                          *)
 (*   op.op \in {"mint_seq","mint_id","batch","transfer","transfer_from",   *)
 (*              "burn","burn_from","approve","approve_for_all"}            *)
-(*   obs = [owners : set of [id, o]        owner_of(id), "none" = fails    *)
+(*   obs = [owners : set of [id, o, u]     owner_of(id), "none" = fails;   *)
+(*                                          u: token_uri(id) "ok" | "fail"   *)
 (*          bal    : account -> balance(account)                           *)
 (*          appr   : set of [id, who]      get_approved(id)                *)
 (*          opall  : owner -> operator -> is_approved_for_all              *)
@@ -103,10 +104,10 @@ IsTarget(ev, id) ==
 LiveSet(g) == {id \in DOMAIN g.own : g.own[id] # NoOne}   \* enumerable flavour has no batches
 
 (* monitors ---------------------------------------------------------------*)
-Monitors == {"C10_owner", "C10_balance", "C10_enum", "C10_fresh", "C10_others", "C10_fail_unchanged",
+Monitors == {"C10_owner", "C10_balance", "C10_enum", "C10_fresh", "C10_others", "C10_fail_unchanged", "C10_uri",
              "C11_move", "C11_approve", "C11_cleared", "C11_operator_scope", "C11_expiry"}
 
-PropOf(m) == IF m \in {"C10_owner", "C10_balance", "C10_enum", "C10_fresh", "C10_others", "C10_fail_unchanged"}
+PropOf(m) == IF m \in {"C10_owner", "C10_balance", "C10_enum", "C10_fresh", "C10_others", "C10_fail_unchanged", "C10_uri"}
              THEN "C10" ELSE "C11"
 
 EnumOk(g2, obs) ==
@@ -123,6 +124,7 @@ Ante(m, g, ev) ==
   LET o == ev.op  ok == ev.res = "ok"  own == OwnerG(g, o.id)  p == Principal(o) IN
   CASE m = "C10_owner"          -> TRUE
     [] m = "C10_balance"        -> TRUE
+    [] m = "C10_uri"            -> TRUE
     [] m = "C10_enum"           -> g.fl = "enumerable"
     [] m = "C10_fresh"          -> ok /\ o.op \in {"mint_seq", "batch"}
     [] m = "C10_others"         -> TRUE
@@ -145,6 +147,8 @@ ConsX(m, g, g2, ev) ==
       own == OwnerG(g, o.id)  p == Principal(o) IN
   CASE m = "C10_owner"   -> \A r \in obs.owners : r.o = OwnerG(g2, r.id)
     [] m = "C10_balance" -> \A a \in DOMAIN obs.bal : obs.bal[a] = Count(g2, a)
+    \* token_uri answers for exactly the tokens that exist (the flavours check existence in their own ways)
+    [] m = "C10_uri"     -> \A r \in obs.owners : (r.u = "ok") <=> (OwnerG(g2, r.id) # NoOne)
     [] m = "C10_enum"    -> EnumOk(g2, obs)
     [] m = "C10_fresh"   ->
          IF o.op = "mint_seq" THEN ev.ret >= 0 /\ ~Ever(g, ev.ret)
